@@ -524,11 +524,15 @@ def rule_s11(ctx, F):
     child / sibling / descendant walks); a literal in its place makes one step of a named-only walk count anonymous nodes
     (or the reverse), so previous/next named sibling and named child disagree with the tree."""
     MODE = "include_anonymous"
-    takes = {}
+    # the mode-taking functions of node.c and the position of their mode parameter (confirmed by reading; the parameter
+    # is found by position, so its spelling does not matter); any other function with a parameter of that name joins them
+    takes = {"ts_node__is_relevant": 1, "ts_node__relevant_child_count": 1, "ts_node__child": 2, "ts_node__prev_sibling": 1, "ts_node__next_sibling": 1,
+             "ts_node__first_child_for_byte": 2, "ts_node__descendant_for_byte_range": 3, "ts_node__descendant_for_point_range": 3}
+    takes = {k: v for k, v in takes.items() if k in F.fns and v < len(F.fns[k].params) and str(F.fns[k].params[v].get("t")) in ("_Bool", "bool")}
     for fn in F.fn_list:
         for i, p in enumerate(fn.params):
             if p["name"] == MODE:
-                takes[fn.name] = i
+                takes.setdefault(fn.name, i)
     n = 0
     for fn in F.fn_list:
         if fn.name not in takes or not fn.blocks:
